@@ -34,6 +34,26 @@ func inRe(s *Term, re string) *Term {
 }
 
 func initStringParserStubs() {
+	// zz.StringExcluding(name, excluded, idx...): an arbitrary string that contains none of the excluded characters
+	stubTable[zzp+"StringExcluding"] = func(e *Exec, st *State, fn *Func, args []Value, site string) []Outcome {
+		ex := args[1].(*Term)
+		if !ex.IsConst() || ex.S == "" {
+			fail("StringExcluding: excluded characters must be a non-empty constant")
+		}
+		v := e.nondet(nondetName(e, st, []Value{args[0], args[2]}), StringSort, "string")
+		var alts []string
+		for _, c := range ex.S {
+			alts = append(alts, "(str.to_re "+smtString(string(c))+")")
+		}
+		u := alts[0]
+		if len(alts) > 1 {
+			u = "(re.union " + strings.Join(alts, " ") + ")"
+		}
+		st.Assume(inRe(v, "(re.* (re.inter re.allchar (re.comp "+u+")))"))
+		strExcl[v.ID] = ex.S
+		return ret(st, v)
+	}
+
 	stubTable["strconv.Atoi"] = func(e *Exec, st *State, fn *Func, args []Value, site string) []Outcome {
 		s := args[0].(*Term)
 		if s.IsConst() {
@@ -141,13 +161,10 @@ func initStringParserStubs() {
 		if s.IsConst() {
 			return ret(st, StrConst(strings.TrimSpace(s.S)))
 		}
-		pre, mid, post := e.fresh("ts_pre", StringSort), e.fresh("ts_mid", StringSort), e.fresh("ts_post", StringSort)
-		st.Assume(Eq(s, App("str.++", StringSort, pre, mid, post)))
-		st.Assume(inRe(pre, "(re.* "+reSpace+")"))
-		st.Assume(inRe(post, "(re.* "+reSpace+")"))
-		notSpaceEdge := "(re.union (str.to_re \"\") (re.comp (re.union (re.++ " + reSpace + " re.all) (re.++ re.all " + reSpace + "))))"
-		st.Assume(inRe(mid, notSpaceEdge))
-		return ret(st, mid)
+		if t, ok := e.trimStructural(st, s); ok {
+			return ret(st, t)
+		}
+		return ret(st, e.trimBoth(st, s))
 	}
 	stubTable["strings.Split"] = func(e *Exec, st *State, fn *Func, args []Value, site string) []Outcome {
 		s, sep := args[0].(*Term), args[1].(*Term)
@@ -164,6 +181,13 @@ func initStringParserStubs() {
 		}
 		if !sep.IsConst() || len(sep.S) == 0 {
 			fail("strings.Split with symbolic or empty separator")
+		}
+		if parts, ok := splitStructural(s, sep.S); ok {
+			var vs []Value
+			for _, p := range parts {
+				vs = append(vs, p)
+			}
+			return ret(st, mkSlice(st, vs))
 		}
 		maxParts := 4
 		if v, err := strconv.Atoi(e.cfg["splitmax"]); err == nil && v > 0 {
@@ -289,4 +313,244 @@ func regexToSMT(pat string) (string, bool) {
 		return parts[0], true
 	}
 	return "(re.++ " + strings.Join(parts, " ") + ")", true
+}
+
+// ---- structured strings -------------------------------------------------------------------------------------------
+// A harness may build its input as a concatenation of constant separators and string variables that are known not
+// to contain those separators (zz.StringExcluding). strings.Split and strings.TrimSpace are then computed on the
+// STRUCTURE of the concatenation (no str.indexof / str.substr chains for the solver): the number of parts is static.
+// The facts used are properties of the two functions themselves:
+//   Split(a ++ sep ++ b, sep) = [a, b]                     when neither a nor b contains sep
+//   TrimSpace(a ++ c ++ b)    = ltrim(a) ++ c ++ rtrim(b)  when c starts and ends with a non-space character
+//   TrimSpace(ltrim(a)) = TrimSpace(rtrim(a)) = TrimSpace(a);  TrimSpace(TrimSpace(a)) = TrimSpace(a)
+// TrimSpace is a pure function: one decomposition per argument term (constraints re-assumed on every path).
+
+var (
+	strExcl   = map[int]string{}   // term id -> characters the string is known not to contain
+	trimOf    = map[int]*Term{}    // id of a one-sided trim remainder -> the term it was cut from
+	trimmedID = map[int]bool{}     // results of TrimSpace (idempotence)
+	trimCache = map[int][3]*Term{} // argument id -> pre, mid, post of its TrimSpace decomposition
+	ltrimCache = map[int][2]*Term{}
+	rtrimCache = map[int][2]*Term{}
+)
+
+const (
+	reSpaces       = "(re.* " + `(re.union (str.to_re " ") (str.to_re "\u{9}") (str.to_re "\u{a}") (str.to_re "\u{d}"))` + ")"
+)
+
+func reNoLeadingSpace() string  { return "(re.union (str.to_re \"\") (re.comp (re.++ " + reSpace + " re.all)))" }
+func reNoTrailingSpace() string { return "(re.union (str.to_re \"\") (re.comp (re.++ re.all " + reSpace + ")))" }
+
+func strPieces(t *Term) []*Term {
+	if t.Op == "str.++" {
+		var out []*Term
+		for _, a := range t.Args {
+			out = append(out, strPieces(a)...)
+		}
+		return out
+	}
+	if t.Op == "strconst" && t.S == "" {
+		return nil
+	}
+	return []*Term{t}
+}
+
+func strJoin(ps []*Term) *Term {
+	// merge adjacent constants
+	var out []*Term
+	for _, p := range ps {
+		if p.Op == "strconst" && p.S == "" {
+			continue
+		}
+		if n := len(out); n > 0 && p.Op == "strconst" && out[n-1].Op == "strconst" {
+			out[n-1] = StrConst(out[n-1].S + p.S)
+			continue
+		}
+		out = append(out, p)
+	}
+	switch len(out) {
+	case 0:
+		return StrConst("")
+	case 1:
+		return out[0]
+	}
+	return App("str.++", StringSort, out...)
+}
+
+func exclCovers(t *Term, chars string) bool {
+	ex, ok := strExcl[t.ID]
+	if !ok {
+		return false
+	}
+	for _, c := range chars {
+		if !strings.ContainsRune(ex, c) {
+			return false
+		}
+	}
+	return true
+}
+
+func splitStructural(s *Term, sep string) ([]*Term, bool) {
+	if len(sep) != 1 {
+		return nil, false
+	}
+	ps := strPieces(s)
+	anyTagged := false
+	for _, p := range ps {
+		if p.Op == "strconst" {
+			continue
+		}
+		if !exclCovers(p, sep) {
+			return nil, false
+		}
+		anyTagged = true
+	}
+	if !anyTagged {
+		return nil, false
+	}
+	var parts []*Term
+	var cur []*Term
+	for _, p := range ps {
+		if p.Op != "strconst" {
+			cur = append(cur, p)
+			continue
+		}
+		frags := strings.Split(p.S, sep)
+		cur = append(cur, StrConst(frags[0]))
+		for _, f := range frags[1:] {
+			parts = append(parts, strJoin(cur))
+			cur = []*Term{StrConst(f)}
+		}
+	}
+	parts = append(parts, strJoin(cur))
+	// a part made of several tagged pieces is itself free of the separator; single pieces keep their own tag
+	for _, p := range parts {
+		if p.Op == "str.++" {
+			strExcl[p.ID] = sep
+		}
+	}
+	return parts, true
+}
+
+func isSpaceByte(c byte) bool { return c == ' ' || c == '\t' || c == '\n' || c == '\r' }
+
+func (e *Exec) ltrimOnly(st *State, x *Term) *Term {
+	pm, ok := ltrimCache[x.ID]
+	if !ok {
+		pm = [2]*Term{e.fresh("lt_pre", StringSort), e.fresh("lt_mid", StringSort)}
+		ltrimCache[x.ID] = pm
+		if ex, ok := strExcl[x.ID]; ok {
+			strExcl[pm[1].ID] = ex
+		}
+		trimOf[pm[1].ID] = x
+	}
+	st.Assume(Eq(x, App("str.++", StringSort, pm[0], pm[1])))
+	st.Assume(inRe(pm[0], reSpaces))
+	st.Assume(inRe(pm[1], reNoLeadingSpace()))
+	trimLemmas(st, x)
+	return pm[1]
+}
+
+func (e *Exec) rtrimOnly(st *State, x *Term) *Term {
+	pm, ok := rtrimCache[x.ID]
+	if !ok {
+		pm = [2]*Term{e.fresh("rt_mid", StringSort), e.fresh("rt_post", StringSort)}
+		rtrimCache[x.ID] = pm
+		if ex, ok := strExcl[x.ID]; ok {
+			strExcl[pm[0].ID] = ex
+		}
+		trimOf[pm[0].ID] = x
+	}
+	st.Assume(Eq(x, App("str.++", StringSort, pm[0], pm[1])))
+	st.Assume(inRe(pm[1], reSpaces))
+	st.Assume(inRe(pm[0], reNoTrailingSpace()))
+	trimLemmas(st, x)
+	return pm[0]
+}
+
+func (e *Exec) trimBoth(st *State, s *Term) *Term {
+	if trimmedID[s.ID] {
+		return s
+	}
+	if y, ok := trimOf[s.ID]; ok {
+		return e.trimBoth(st, y)
+	}
+	d, ok := trimCache[s.ID]
+	if !ok {
+		d = [3]*Term{e.fresh("ts_pre", StringSort), e.fresh("ts_mid", StringSort), e.fresh("ts_post", StringSort)}
+		trimCache[s.ID] = d
+		if ex, ok := strExcl[s.ID]; ok {
+			strExcl[d[1].ID] = ex
+		}
+		trimmedID[d[1].ID] = true
+	}
+	st.Assume(Eq(s, App("str.++", StringSort, d[0], d[1], d[2])))
+	st.Assume(inRe(d[0], reSpaces))
+	st.Assume(inRe(d[2], reSpaces))
+	notSpaceEdge := "(re.union (str.to_re \"\") (re.comp (re.union (re.++ " + reSpace + " re.all) (re.++ re.all " + reSpace + "))))"
+	st.Assume(inRe(d[1], notSpaceEdge))
+	// canonical choice for an all-space argument (the decomposition is otherwise not unique): everything in pre
+	st.Assume(Implies(Eq(d[1], StrConst("")), Eq(d[2], StrConst(""))))
+	trimLemmas(st, s)
+	return d[1]
+}
+
+// trimStructural: TrimSpace of a concatenation with a constant piece that starts and ends with a non-space
+// character and at most one variable piece on either side of the outermost such constants.
+func (e *Exec) trimStructural(st *State, s *Term) (*Term, bool) {
+	ps := strPieces(s)
+	if len(ps) < 2 {
+		return nil, false
+	}
+	L, R := -1, -1
+	for i, p := range ps {
+		if p.Op == "strconst" && strings.TrimSpace(p.S) != "" {
+			if L < 0 {
+				L = i
+			}
+			R = i
+		}
+	}
+	if L < 0 || L > 1 || R < len(ps)-2 {
+		return nil, false
+	}
+	out := append([]*Term(nil), ps...)
+	if L == 1 {
+		if ps[0].Op == "strconst" || isSpaceByte(ps[1].S[0]) {
+			return nil, false
+		}
+		out[0] = e.ltrimOnly(st, ps[0])
+	} else {
+		out[0] = StrConst(strings.TrimLeft(ps[0].S, " \t\n\r"))
+	}
+	n := len(ps)
+	if R == n-2 {
+		if ps[n-1].Op == "strconst" || isSpaceByte(ps[R].S[len(ps[R].S)-1]) {
+			return nil, false
+		}
+		out[n-1] = e.rtrimOnly(st, ps[n-1])
+	} else {
+		c := out[n-1] // may already be left-trimmed when L == R == 0... (n >= 2 so L==R==n-1 means n-1 >= 1)
+		out[n-1] = StrConst(strings.TrimRight(c.S, " \t\n\r"))
+	}
+	return strJoin(out), true
+}
+
+
+// trimLemmas: consequences of the uniqueness of the maximal leading / trailing white-space runs, stated between the
+// decompositions of the SAME string that exist so far (they spare the solver an inductive argument about
+// concatenation equalities):  x = lt_pre ++ lt_mid = rt_mid ++ rt_post = ts_pre ++ ts_mid ++ ts_post.
+func trimLemmas(st *State, x *Term) {
+	d, okD := trimCache[x.ID]
+	l, okL := ltrimCache[x.ID]
+	r, okR := rtrimCache[x.ID]
+	if okD && okL {
+		st.Assume(Eq(l[0], d[0]))
+		st.Assume(Eq(l[1], App("str.++", StringSort, d[1], d[2])))
+	}
+	if okD && okR {
+		nonEmpty := Not(Eq(d[1], StrConst("")))
+		st.Assume(Implies(nonEmpty, And(Eq(r[1], d[2]), Eq(r[0], App("str.++", StringSort, d[0], d[1])))))
+		st.Assume(Implies(Not(nonEmpty), Eq(r[0], StrConst(""))))
+	}
 }
